@@ -43,7 +43,7 @@ Definition decode_chunk (c : chunkT) : groups := map (fun g : wgroup => (fst (fs
 
 Inductive revt :=
 | EApi (o : uop)                 (* Write / Flush / Tick / Alias / Results / Close(begin) as in Model/Upstream *)
-| ECloseEnd                      (* Close's wait is over: close request, Close returns *)
+| ECloseEnd                      (* the wait of the Close call in progress is over: close request, Close returns *)
 | EAckTimeout (seq : N)
 | ELinkDown (silent : bool)      (* the live connection dies (the stream's, or the freshly dialled one) *)
 | EDetect                        (* the stream notices: status Resuming, run cancelled, final flush *)
@@ -67,32 +67,37 @@ Record rstate := mkR {
   z_closereqs : list (N * N);        (* close requests the broker received: (total, final seq) *)
   z_closedev : list bool;            (* closed events delivered to the application: carries an error? *)
   z_resumes : N;                     (* resume requests sent (all carry the_sid: u.ID never changes) *)
-  z_avail : bool                     (* a redialled connection the stream has not yet resumed on *)
+  z_avail : bool;                    (* a redialled connection the stream has not yet resumed on *)
+  z_closing : bool                   (* an application Close call is in progress (drained, waiting for the acks) *)
 }.
 
 Definition set_u (s : rstate) (u : ustate) : rstate :=
   mkR u (z_sent s) (z_link s) (z_inc s) (z_status s) (z_waiters s) (z_queue s) (z_cut s) (z_removed s)
-      (z_ledger s) (z_txinc s) (z_closereqs s) (z_closedev s) (z_resumes s) (z_avail s).
+      (z_ledger s) (z_txinc s) (z_closereqs s) (z_closedev s) (z_resumes s) (z_avail s) (z_closing s).
 Definition set_status (s : rstate) (st : sstatus) : rstate :=
   mkR (z_u s) (z_sent s) (z_link s) (z_inc s) st (z_waiters s) (z_queue s) (z_cut s) (z_removed s)
-      (z_ledger s) (z_txinc s) (z_closereqs s) (z_closedev s) (z_resumes s) (z_avail s).
+      (z_ledger s) (z_txinc s) (z_closereqs s) (z_closedev s) (z_resumes s) (z_avail s) (z_closing s).
 Definition set_waiters (s : rstate) (w : list N) : rstate :=
   mkR (z_u s) (z_sent s) (z_link s) (z_inc s) (z_status s) w (z_queue s) (z_cut s) (z_removed s)
-      (z_ledger s) (z_txinc s) (z_closereqs s) (z_closedev s) (z_resumes s) (z_avail s).
+      (z_ledger s) (z_txinc s) (z_closereqs s) (z_closedev s) (z_resumes s) (z_avail s) (z_closing s).
 Definition set_queue (s : rstate) (q : list (N * groups)) : rstate :=
   mkR (z_u s) (z_sent s) (z_link s) (z_inc s) (z_status s) (z_waiters s) q (z_cut s) (z_removed s)
-      (z_ledger s) (z_txinc s) (z_closereqs s) (z_closedev s) (z_resumes s) (z_avail s).
+      (z_ledger s) (z_txinc s) (z_closereqs s) (z_closedev s) (z_resumes s) (z_avail s) (z_closing s).
 Definition set_sent (s : rstate) (st : sstate) : rstate :=
   mkR (z_u s) st (z_link s) (z_inc s) (z_status s) (z_waiters s) (z_queue s) (z_cut s) (z_removed s)
-      (z_ledger s) (z_txinc s) (z_closereqs s) (z_closedev s) (z_resumes s) (z_avail s).
+      (z_ledger s) (z_txinc s) (z_closereqs s) (z_closedev s) (z_resumes s) (z_avail s) (z_closing s).
 (* link, incarnation, transmitted-in-incarnation, availability of a fresh connection *)
 Definition set_conn (s : rstate) (l : lstate) (inc : N) (tx : list N) (av : bool) : rstate :=
   mkR (z_u s) (z_sent s) l inc (z_status s) (z_waiters s) (z_queue s) (z_cut s) (z_removed s)
-      (z_ledger s) tx (z_closereqs s) (z_closedev s) (z_resumes s) av.
+      (z_ledger s) tx (z_closereqs s) (z_closedev s) (z_resumes s) av (z_closing s).
 (* what the application and the broker are told at the end of the stream *)
 Definition set_reports (s : rstate) (cr : list (N * N)) (ev : list bool) (n : N) : rstate :=
   mkR (z_u s) (z_sent s) (z_link s) (z_inc s) (z_status s) (z_waiters s) (z_queue s) (z_cut s) (z_removed s)
-      (z_ledger s) (z_txinc s) cr ev n (z_avail s).
+      (z_ledger s) (z_txinc s) cr ev n (z_avail s) (z_closing s).
+
+Definition set_closing (s : rstate) (b : bool) : rstate :=
+  mkR (z_u s) (z_sent s) (z_link s) (z_inc s) (z_status s) (z_waiters s) (z_queue s) (z_cut s) (z_removed s)
+      (z_ledger s) (z_txinc s) (z_closereqs s) (z_closedev s) (z_resumes s) (z_avail s) b.
 
 Definition mem (x : N) (l : list N) : bool := existsb (N.eqb x) l.
 Definition del (x : N) (l : list N) : list N := filter (fun y => negb (y =? x)) l.
@@ -103,7 +108,7 @@ Definition transmit (s : rstate) (seq : N) (g : groups) : rstate :=
   match z_link s with
   | LUp => mkR (z_u s) (z_sent s) (z_link s) (z_inc s) (z_status s) (seq :: del seq (z_waiters s)) (z_queue s)
                (z_cut s) (z_removed s) (z_ledger s ++ [(z_inc s, seq, g)]) (seq :: z_txinc s)
-               (z_closereqs s) (z_closedev s) (z_resumes s) (z_avail s)
+               (z_closereqs s) (z_closedev s) (z_resumes s) (z_avail s) (z_closing s)
   | LDownSilent => set_waiters s (seq :: del seq (z_waiters s))     (* the write "succeeds" and vanishes *)
   | LDownLoud => s                                                  (* the write fails, the goroutine returns *)
   end.
@@ -114,14 +119,14 @@ Definition on_chunk (cfg : rcfg) (s : rstate) (c : chunkT) : rstate :=
   let g := decode_chunk c in
   let s1 := mkR (z_u s) (st_store (c_keep cfg) the_sid seq g (z_sent s)) (z_link s) (z_inc s) (z_status s)
                 (z_waiters s) (z_queue s) (z_cut s ++ [c]) (z_removed s) (z_ledger s) (z_txinc s)
-                (z_closereqs s) (z_closedev s) (z_resumes s) (z_avail s) in
+                (z_closereqs s) (z_closedev s) (z_resumes s) (z_avail s) (z_closing s) in
   transmit s1 seq g.
 
 (* a waiter obtains a value (a result, or nil on an ack timeout): Remove *)
 Definition waiter_removes (s : rstate) (seq why : N) : rstate :=
   mkR (z_u s) (fst (st_remove the_sid seq (z_sent s))) (z_link s) (z_inc s) (z_status s) (del seq (z_waiters s))
       (z_queue s) (z_cut s) ((seq, why) :: z_removed s) (z_ledger s) (z_txinc s)
-      (z_closereqs s) (z_closedev s) (z_resumes s) (z_avail s).
+      (z_closereqs s) (z_closedev s) (z_resumes s) (z_avail s) (z_closing s).
 
 (* one result of an ack: a well-formed broker acknowledges only what it received, over a live link *)
 Definition on_result (s : rstate) (r : N * N) : rstate :=
@@ -147,7 +152,7 @@ Definition rstep (cfg : rcfg) (s : rstate) (e : revt) : rstate * N :=
       match z_status s with
       | SConnected =>
           match o with
-          | Close => let r := exec_u cfg s Flush in (set_status (fst r) SDraining, 0)
+          | Close => let r := exec_u cfg s Flush in (set_closing (set_status (fst r) SDraining) true, 0)
           | Results rs => let r := exec_u cfg s o in (fold_left on_result rs (fst r), snd r)
           | _ => exec_u cfg s o
           end
@@ -170,15 +175,21 @@ Definition rstep (cfg : rcfg) (s : rstate) (e : revt) : rstate * N :=
           end
       end
   | ECloseEnd =>
-      match z_status s with
-      | SDraining =>
-          match z_link s with
-          | LUp => (set_reports (set_waiters (set_status s SClosedOk) [])
-                                (z_closereqs s ++ [(u_total (z_u s), u_seq (z_u s))]) (z_closedev s ++ [false]) (z_resumes s), 0)
-          | _ => (close_err s false, 1)
-          end
-      | _ => (s, 0)
-      end
+      (* the wait of a Close call in progress is over.  A disconnect while Close waits turns the status to
+         Resuming and a successful resume to Connected (the watcher and resume() overwrite Draining): the
+         call goes on waiting and closes on whatever connection the stream then holds *)
+      if z_closing s then
+        match z_status s with
+        | SDraining | SConnected =>
+            match z_link s with
+            | LUp => (set_closing (set_reports (set_waiters (set_status s SClosedOk) [])
+                                  (z_closereqs s ++ [(u_total (z_u s), u_seq (z_u s))]) (z_closedev s ++ [false]) (z_resumes s)) false, 0)
+            | _ => (set_closing (close_err s false) false, 1)
+            end
+        | SResuming => (set_closing (close_err s false) false, 1)   (* the wait timed out during the outage *)
+        | _ => (set_closing s false, 0)
+        end
+      else (s, 0)
   | EAckTimeout seq =>
       match z_status s with
       | SConnected | SDraining => if mem seq (z_waiters s) then (waiter_removes s seq 1, 0) else (s, 0)
@@ -241,7 +252,7 @@ Fixpoint rrun (cfg : rcfg) (s : rstate) (evs : list revt) : rstate * list N :=
   end.
 
 Definition rinit (pol : policy) (rev0 : lmap N) : rstate :=
-  mkR (uinit pol rev0) [] LUp 0 SConnected [] [] [] [] [] [] [] [] 0 false.
+  mkR (uinit pol rev0) [] LUp 0 SConnected [] [] [] [] [] [] [] [] 0 false false.
 
 (* ------------------------------------------------------------------------------------------ *)
 (* accepted writes of a history (events paired with their return codes) *)
